@@ -171,7 +171,30 @@ func (p *Path) bigMul(x, y *Term) *Term {
 		return p.tt.Eq(wide, p.tt.SExt(r, 2*w))
 	}, "Mul")
 	p.setBound(r, min(nb, p.bigW()))
+	if nb <= p.bigW()-1 && !r.IsConst() {
+		// product that provably does not overflow: remember the factors so that its sign
+		// and zero-ness can be decided from theirs without bit-blasting the multiplier
+		if p.prodOf == nil {
+			p.prodOf = map[*Term][2]*Term{}
+		}
+		p.prodOf[r] = [2]*Term{x, y}
+	}
 	return r
+}
+
+// prodSign returns (isNegative, isZero) of a non-overflowing product from its factors.
+func (p *Path) prodSign(r *Term) (neg, zero *Term, ok bool) {
+	f, ok := p.prodOf[r]
+	if !ok {
+		return nil, nil, false
+	}
+	tt := p.tt
+	z := BVConstU(0, r.S.W)
+	xz, yz := tt.Eq(f[0], z), tt.Eq(f[1], z)
+	xn, yn := p.bigIsNeg(f[0]), p.bigIsNeg(f[1])
+	zero = tt.Or(xz, yz)
+	neg = tt.And(tt.Not(zero), tt.Not(tt.Eq(xn, yn)))
+	return neg, zero, true
 }
 
 func (p *Path) bigNeg(x *Term) *Term {
@@ -189,6 +212,9 @@ func (p *Path) bigNeg(x *Term) *Term {
 func (p *Path) bigIsNeg(x *Term) *Term {
 	if !p.bvMode() {
 		return p.tt.ILt(x, IConstI(0))
+	}
+	if neg, _, ok := p.prodSign(x); ok {
+		return neg
 	}
 	return p.tt.SLt(x, BVConstU(0, x.S.W))
 }
@@ -637,6 +663,11 @@ func init() {
 	reg(B+"Sign", func(p *Path, fn *ssa.Function, a []Value) Value {
 		x := p.bigLoad(a[0])
 		zero := p.bigConst(bigZero)
+		if p.bvMode() {
+			if neg, isz, ok := p.prodSign(x); ok {
+				return p.tt.Ite(neg, BVConstI(-1, 64), p.tt.Ite(isz, BVConstU(0, 64), BVConstU(1, 64)))
+			}
+		}
 		return p.tt.Ite(p.bigLt(x, zero), BVConstI(-1, 64), p.tt.Ite(p.tt.Eq(x, zero), BVConstU(0, 64), BVConstU(1, 64)))
 	})
 	reg(B+"SetInt64", func(p *Path, fn *ssa.Function, a []Value) Value {
